@@ -49,7 +49,7 @@ def c12_conform(pid, v, tier):
                 "counterexample": {"message_literal_starts_with": s, "rule_says": ex.get("oracle"), "library_says": ex.get("real")},
                 "native_replay": {"cmd": "breadlog --config Breadlog.yaml --check   (src/a.rs: info!(\"%s\");)" % s, "exit": r.returncode,
                                   "meaning": "exit 0 = statement treated as referenced", "stdout_tail": r.stdout[-300:]},
-                "replay_cmd": None}
+                "replay_cmd": "python3 %s/replay/native.py c12 --input %s --expect '%s'" % (ROOT, __import__("shlex").quote(s), ex.get("oracle"))}
     finally:
         shutil.rmtree(scratch, ignore_errors=True)
 
@@ -143,7 +143,12 @@ def _c01_kani(pid, v, tier):
                     ce = ce or {"boundary_family": True}
                     found = True
                     break
-        return {"found": found, "counterexample": ce, "native_replay": nat, "replay_cmd": None, "error": None if (failed or found) else "kani found no counterexample: " + tail[-300:]}
+        cmd = None
+        if found and nat:
+            t = nat.get("tree") or ({"existing_in_a": vals[0], "existing_in_b": vals[2], "lock": None} if len(vals) >= 4 else None)
+            if t:
+                cmd = "python3 %s/replay/native.py c01 --a %d --b %d%s" % (ROOT, t["existing_in_a"], t["existing_in_b"], (" --lock %d" % t["lock"]) if t.get("lock") is not None else "")
+        return {"found": found, "counterexample": ce, "native_replay": nat, "replay_cmd": cmd, "error": None if (failed or found) else "kani found no counterexample: " + tail[-300:]}
     finally:
         shutil.rmtree(scratch, ignore_errors=True)
 
